@@ -371,6 +371,7 @@ impl Snapshot {
 		// Track the best match (latest version at or before requested timestamp)
 		let mut best_value: Option<Value> = None;
 		let mut best_timestamp: u64 = 0;
+		let mut found = false;
 
 		while iter.valid() {
 			let entry_key = iter.key();
@@ -388,8 +389,10 @@ impl Snapshot {
 
 			let entry_ts = entry_key.timestamp();
 
-			// Only consider versions at or before the requested timestamp
-			if entry_ts <= timestamp && entry_ts >= best_timestamp {
+			// Only consider versions at or before the requested timestamp. The versions of
+			// a key are listed newest first, so among versions with the same timestamp the
+			// one seen first is the latest write: a later one must not replace it.
+			if entry_ts <= timestamp && (!found || entry_ts > best_timestamp) {
 				if entry_key.is_tombstone() {
 					// Key was deleted at this timestamp
 					best_value = None;
@@ -397,6 +400,7 @@ impl Snapshot {
 					best_value = Some(self.core.resolve_value(iter.value_encoded()?)?);
 				}
 				best_timestamp = entry_ts;
+				found = true;
 			}
 
 			iter.next()?;
